@@ -96,7 +96,7 @@ class DState:
         self.mfr = SStr([Atom('claimed_manufacturer')])
         self.ident = Obj(r.cls('message', 'IsoName'), {'name': self.old_name,
                                                        'manufacturer_code': GV.make([(self.mfr_none.t, None), (z3.Not(self.mfr_none.t), self.mfr)])})
-        self.map = SymMap('source_to_iso_name', [[self.src, GV.make([(self.has_ident.t, self.ident), (z3.Not(self.has_ident.t), ABSENT)])]])
+        self.map = SymMap('source_to_iso_name', [[self.src, GV.make([(self.has_ident.t, self.ident), (z3.Not(self.has_ident.t), ABSENT)])]], open_world=True)
         self.dump_on = Sym(z3.Bool('dump_enabled'), 'bool')
         self.dump = DumpFile()
         self.prefs = Opaque('preferred_units')
@@ -116,9 +116,7 @@ class DState:
                       'preferred_units': self.prefs, 'data': self.data, 'logged_unsupported_pgns': self.logged})
         # any further attribute the real constructor creates exists here too, with unknown content (the decoder has an
         # arbitrary history of earlier calls): a container reads as a HavocState, anything else is opaque
-        for a, is_container in constructor_attributes(r, DEC + '__init__').items():
-            if a not in attrs:
-                attrs[a] = HavocState(f'NMEA2000Decoder.{a}') if is_container else Opaque(f'decoder.{a}')
+        attrs.update(unknown_ctor_attrs(r, DEC + '__init__', attrs, 'NMEA2000Decoder'))
         self.decoder = Obj(r.cls('decoder', 'NMEA2000Decoder'), attrs)
         self.attr_names = set(attrs)
         # facts established by the constructor (checked by the __init__ task) and by C01 (the claim definition's id)
@@ -260,7 +258,12 @@ def constructor_attributes(r, init_name):
                     # anything that is not plainly a scalar expression counts as a container (a call may return one)
                     cont = not isinstance(val, (ast.Constant, ast.Compare, ast.BoolOp, ast.UnaryOp, ast.BinOp, ast.Name, ast.Attribute, ast.IfExp, ast.JoinedStr, type(None)))
                     out[t1.attr] = out.get(t1.attr, False) or cont
+                    if isinstance(val, ast.Constant) and not cont:
+                        KINDS[(init_name, t1.attr)] = 'bool' if isinstance(val.value, bool) else ('int' if isinstance(val.value, int) else ('str' if isinstance(val.value, str) else 'other'))
     return out
+
+
+KINDS = {}
 
 
 def unknown_ctor_attrs(r, init_name, known, label):
@@ -269,7 +272,17 @@ def unknown_ctor_attrs(r, init_name, known, label):
     out = {}
     for a, is_container in constructor_attributes(r, init_name).items():
         if a not in known:
-            out[a] = HavocState(f'{label}.{a}') if is_container else Opaque(f'{label}.{a}')
+            kind = KINDS.get((init_name, a))
+            if is_container:
+                out[a] = HavocState(f'{label}.{a}')
+            elif kind == 'int':
+                out[a] = mk_int(z3.Int(f'{label}.{a}0'))
+            elif kind == 'bool':
+                out[a] = mk_bool(z3.Bool(f'{label}.{a}0'))
+            elif kind == 'str':
+                out[a] = SStr([Atom(f'{label}.{a}0')])
+            else:
+                out[a] = Opaque(f'{label}.{a}')
     return out
 
 
@@ -313,7 +326,7 @@ class DecodeTask(Task):
                                       meta={'note': note, 'scenario': scenario or name, 'prop': self.prop}))
             if p.kind == 'raise' and not (p.exc_name() == 'ValueError' and 'field decoder rejected' in str((p.value.attrs.get('args') or [''])[0])):
                 add('no-exception-of-its-own', False, f'_decode raises {p.exc_name()}: {str((p.value.attrs.get("args") or [""])[0])[:80]}', 'exception')
-            build = {'C10': obligations_c10, 'C11': obligations_c11, 'C15': obligations_c15, 'C16': obligations_c16, 'C08': obligations_c08, 'C17': obligations_c17, 'C07': obligations_c16, 'C03': obligations_c16}[self.prop]
+            build = {'C10': obligations_c10, 'C11': obligations_c11, 'C15': obligations_c15, 'C16': obligations_c16, 'C08': obligations_c08, 'C17': obligations_c17, 'C07': obligations_c16, 'C03': obligations_c16, 'C05': obligations_c11}[self.prop]
             build(self, p, st, add)
         for ob in obs:
             res = discharge(ob, budget(tier))
